@@ -74,9 +74,11 @@ let () =
         let s = bytes_of w.(3 + k) in
         let nr = int_of_string w.(4 + k) in
         let tbl = available_cpus (parse_cpu_list s (zi 1024)) ncpu aff in
-        Printf.printf "avail %d%s ranks%s\n" (Stdlib.List.length tbl)
+        let pr = parse_cpu_list s (zi 1024) in
+        Printf.printf "avail %d%s ranks%s malformed=%d\n" (Stdlib.List.length tbl)
           (String.concat "" (Stdlib.List.map (fun z -> " " ^ sz z) tbl))
           (String.concat "" (Stdlib.List.init nr (fun r -> " " ^ sz (worker_cpu tbl (zi r)))))
+          (match pr with Val _ -> 0 | _ -> 1)
      | "ranks" -> let l = worker_ranks (zs w.(1)) in
         Printf.printf "ranks%s\n" (String.concat "" (Stdlib.List.map (fun z -> " " ^ sz z) l))
      | "proto" ->
